@@ -96,6 +96,25 @@ if functions.time is not _fake_time or functions.token_bytes is not _fake_token_
 real_time = _real_time
 
 
+class CaseTimeout(BaseException):
+    """per-case wall-clock backstop fired (see mc/run.py and DESIGN 11.3)"""
+
+
+ABORT = [False]
+_tape_read = classes.Tape.read
+
+
+def _guarded_read(self, size, move_pointer=True):
+    # OP_TRY_EXCEPT catches BaseException, so a timeout exception alone can be swallowed for ever by a script that
+    # nests TRY inside exponential recursion; once the backstop fired, every tape read fails, which stops all progress
+    if ABORT[0]:
+        raise CaseTimeout()
+    return _tape_read(self, size, move_pointer)
+
+
+classes.Tape.read = _guarded_read
+
+
 def sym(seed, name, n=32):
     """Concrete bytes for the abstract symbol `name` under VERIF_SEED `seed`."""
     return hashlib.shake_256(b'sym|%d|%s' % (seed, name.encode())).digest(n)
